@@ -259,6 +259,12 @@ pub fn execute_with(f: &Fam, presented: Option<&[u8]>, extra: &ExecExtra) -> Obs
                 if !f.seed_output && !extra.no_force {
                     opts.force_create = true;
                 }
+                // the two options together mean what --seed-output means alone: the old
+                // content is scanned and re-used, not emptied first
+                if f.seed_output && !extra.no_force && gen::chance(1, 3) {
+                    opts.force_create = true;
+                    simkit::count("probe:seed-output-with-force-create");
+                }
             }
             None => scen::quiet(|| {
                 let _ = std::fs::remove_file("out.bin");
